@@ -35,6 +35,31 @@ def random_points(rng):
     return [float(x) for x in pts], dt
 
 
+def _rounding_gaps():
+    """Pairs (dt, i, j) on k*dt grids where float(t_i + (t_j - t_i)) != t_j: the interval length stored in an increments table
+    does not lead from the previous stamp exactly onto the next one (only possible for t_j > 2 t_i: a gap early in a record)."""
+    out = []
+    for dt in (0.01, 0.05, 0.1, 0.2):
+        for i in range(0, 25):
+            for j in range(i + 2, i + 14):
+                a, b = i * dt, j * dt
+                if a + (b - a) != b:
+                    out.append((dt, i, j, a + (b - a) < b))
+    return out
+
+
+ROUNDING_GAPS = _rounding_gaps()
+
+
+def rounding_gap_points(rng):
+    dt, i, j, _below = ROUNDING_GAPS[int(rng.randint(len(ROUNDING_GAPS)))]
+    n_after = int(rng.randint(2, 8))
+    pts = [k * dt for k in range(0, i + 1)] + [k * dt for k in range(j, j + n_after)]
+    if len(pts) < 3:
+        pts = [0.0] + pts if pts[0] > 0 else pts
+    return [float(x) for x in pts], dt
+
+
 def random_stamps(rng, pts, others):
     out = set()
     p = np.asarray(pts)
@@ -77,7 +102,7 @@ def random_stamps(rng, pts, others):
 
 
 def random_task(rng, kind, seed):
-    pts, dt = random_points(rng)
+    pts, dt = rounding_gap_points(rng) if rng.rand() < 0.12 else random_points(rng)
     span = pts[-1] - pts[0]
     ns = int(rng.choice([0, 1, 1, 2, 2, 3]))
     names = list(rng.permutation(CLASSES)[:ns])
@@ -139,6 +164,8 @@ def corner_tasks(kind):
     T([0, 1, 2, 3], [("NedVelocity", [1.0, 2.0]), ("Position", [1.0, 2.0]), ("BodyVelocity", [2.0])], 1.0, alt=False, vd0=1.0)
     T([10, 10.5, 11, 11.5, 12], [("BodyVelocity", [10.25, 10.75, 11.25, 11.75])], 0.05, alt=False, models="bias")
     T([0, 1e-3, 2e-3, 3e-3], [("Position", [1.5e-3])], 1e-4)                        # step far below the interval
+    T([k * 0.05 for k in range(21) if not (0.10 < k * 0.05 < 0.45)], [("Position", [0.30, 0.52, 0.70, 5.0])], 0.1)   # gap where t + dt rounds below the next stamp
+    T([0.0, 0.1, 0.2, 0.7000000000000001, 0.8, 0.9], [], 0.05, form="none")                                    # the same, no measurements
     T([0, 1, 2, 3, 4, 5, 6], [("Position", [4, 2, 5]), ("NedVelocity", [3, 0, 2])], 2, intidx=True, shuffle=True)   # integer-typed, unsorted rows
     T([10, 11, 13, 14, 20], [("BodyVelocity", [13, 10, 20])], 1, intidx=True, shuffle=True, alt=False, vd0=1.0)
     return out
